@@ -422,6 +422,26 @@ class Translator:
 
     def e_ListComp(self, node, env):
         """`[e for x in it]` (one generator, no condition, an element expression that cannot raise)"""
+        g0 = node.generators[0] if len(node.generators) == 1 else None
+        if (g0 is not None and len(g0.ifs) == 1 and not g0.is_async and isinstance(g0.target, ast.Name) and isinstance(node.elt, ast.Name)
+                and node.elt.id == g0.target.id):
+            # `[x for x in xs if c]` with a condition that cannot raise: the elements for which it holds, in order
+            saved = self.hoists
+            self.hoists = []
+            try:
+                lst, bound, hs = self.loop_iter(g0, env)
+                if hs or self.hoists:
+                    self.bad(node, "a list comprehension whose iterable may raise")
+            finally:
+                self.hoists = saved
+            env2 = dict(env)
+            for n, t, nn in bound:
+                env2[n] = V(lname(n), t, nn)
+            c = self.strict(lambda: self.expr(g0.ifs[0], env2))
+            if c.typ != "Bool" or len(bound) != 1:
+                self.bad(node, "list comprehension condition that is not a bool")
+            et = ty(bound[0][1])
+            return V(f"(List.filter (fun ({lname(bound[0][0])} : {et}) => {c.term}) {lst})", f"List {ty_arg(bound[0][1]) if ' ' in et else bound[0][1]}")
         if len(node.generators) != 1 or node.generators[0].ifs or node.generators[0].is_async:
             self.bad(node, "list comprehension with several generators or a condition")
         g = node.generators[0]
@@ -990,6 +1010,11 @@ class Translator:
                 self.bad(node, f"key of type {kx.typ} for a bool-keyed dict place")
             p = self.read_place(pk, env, node)
             return V(f"(if {kx.term} then {p.term}.2 else {p.term}.1)", unparen(split_prod(p.typ)[0]))
+        if isinstance(f, ast.Attribute) and f.attr == "lower" and not node.args and not kw and any(n == "str_lower" for n, _ in self.spec.get("externals", ())):
+            x = self.expr(f.value, env)
+            if x.typ != "Str":
+                self.bad(node, f"lower() of {x.typ}")
+            return V(f"(str_lower {x.term})", "Str")          # `s.lower()`: Unicode case mapping, the external `str_lower`
         one = lambda a: isinstance(a, ast.Constant) and isinstance(a.value, str) and len(a.value) == 1
         if isinstance(f, ast.Attribute) and f.attr == "split" and len(node.args) == 1 and not kw and one(node.args[0]):
             x = self.expr(f.value, env)
